@@ -34,7 +34,7 @@ class Prop(BaseProp):
             "contract get_tau <= limit/2 on every window evaluation. distinct = (interleaving word, max_tau regime)")
     budget = {"quick": 800, "thorough": 60000}
     must_see = ["candidate_window_exceeds_max_tau", "none_vs_zero_checked", "monotone_checked", "filter_checked",
-                "interval_checked", "mrts_gt_2max_tau", "multivariate_checked", "tie_distance_equals_max_tau"]
+                "interval_checked", "mrts_gt_2max_tau", "multivariate_checked", "tie_distance_equals_max_tau", "src_W14", "interval_vs_profile_checked"]
     must_contracts = ["post:get_tau"]
     arm_files = [("pyspike/cython/python_backend.py", ["get_tau", "Interpolate", "coincidence_python", "coincidence_single_python"]),
                  ("pyspike/cython/directionality_python_backend.py", None)]
@@ -43,13 +43,21 @@ class Prop(BaseProp):
 
     def cases(self, rng, tier, config, k, K, n):
         for idx in range(n):
-            if rng.random() < 0.8:
+            r = rng.random()
+            if r < 0.55:
                 case = gen.dyadic_list(rng, tier, 2, 5, nmax=rng.choice([8, 12, 16]))
                 case["src"] = "W1dense"
-            else:
+                case["kw"] = kw_c16(rng, case)
+            elif r < 0.70:
                 case = gen.hostile_list(rng, tier, 2, 4)
                 case["src"] = "W2"
-            case["kw"] = kw_c16(rng, case)
+                case["kw"] = kw_c16(rng, case)
+            else:
+                case = gen.window_scale_list(rng, rng.choice([2, 2, 3]))
+                case["src"] = "W14"
+                m = case["m"]
+                m1 = m * rng.choice([0.5, 1.0, 1.0, 1.0, 1.5])
+                case["kw"] = {"max_tau": m1, "max_tau2": m1 * rng.choice([1.0, 2.0, 3.0]), "MRTS": rng.choice([0, 0, m, 6 * m])}
             bps = sorted({t for s in case["trains"] for t in s})
             a, b, kd = gen.pick_interval(rng, case["ts"], case["te"], bps)
             case["interval"] = [a, b]
@@ -116,6 +124,18 @@ class Prop(BaseProp):
                 adm = sum(1 for t, o in inside if near(t, o, m))
                 ctx.expect(v <= adm / len(inside) + 1e-12, "coincidence-beyond-max_tau:spike_sync(interval)",
                            "spike_sync(interval=%r, max_tau=%r)=%r exceeds admissible fraction %d/%d" % ((lo, hi), m, v, adm, len(inside)))
+            # the interval form must describe the same coincidences as the profile (a spike's window depends on its
+            # neighbours even when those lie outside the averaging interval)
+            ctx.count("interval_vs_profile_checked")
+            pr = ctx.call(ps.spike_sync_profile, sts[0], sts[1], **kw)
+            sy, sm = ref.discrete_sums(pr.x, pr.y, pr.mp, lo, hi)
+            vi = ctx.call(ps.spike_sync, sts[0], sts[1], interval=(lo, hi), **kw)
+            ctx.close(vi, float(sy / sm) if sm else 1.0, "interval-form-disagrees-with-profile", "spike_sync(interval=%r, max_tau=%r) vs the profile restricted to the interval" % ((lo, hi), m), rel=1e-12)
+            if N >= 3:
+                prm = ctx.call(ps.spike_sync_profile, sts, **kw)
+                sy, sm = ref.discrete_sums(prm.x, prm.y, prm.mp, lo, hi)
+                vm = ctx.call(ps.spike_sync, sts, interval=(lo, hi), **kw)
+                ctx.close(vm, float(sy / sm) if sm else 1.0, "interval-form-disagrees-with-profile", "multivariate spike_sync(interval=%r, max_tau=%r) vs the profile restricted to the interval" % ((lo, hi), m), rel=1e-12)
             v = ctx.call(ps.spike_sync, sts[0], sts[1], **kw)
             alls = [(t, o) for s, o in ((a, b), (b, a)) for t in s]
             if alls:
